@@ -1,7 +1,7 @@
 (** C20 — what "the session ends when its client is gone or silent" means for
     a handler given as a transition system over read outcomes. *)
 From Coq Require Import List Bool NArith Arith.
-From Raven Require Import Base.GoStr Model.Lifecycle Model.LifecycleSrv Model.LifecycleWrite.
+From Raven Require Import Base.GoStr Model.Lifecycle Model.LifecycleSrv Model.LifecycleWrite Model.LifecycleSaslLoop.
 Import ListNotations.
 
 (** the client is gone: every further read fails with EOF or another error;
@@ -159,7 +159,10 @@ Definition l_verdict (cf : lconf) (es : list event) (sizes : list nat)
 Definition s_verdict (es : list event) (sizes : list nat) (impl_counts : list nat) (impl_log : list N) : N :=
   let obs := s_observe false SCmd es in
   let r_ok := list_eqb Nat.eqb (map (fun l => fold_right plus 0 l) (group sizes (map (fun n => [n]) obs))) impl_counts in
-  let l_ok := (forallb (N.eqb 30000) impl_log && negb (Nat.eqb (length impl_log) 0))%bool in
+  (* every armed deadline is 30 s, and there are exactly as many as the loop model arms:
+     the initial one and one per line of two or more fields (NOT for the `continue` path) *)
+  let lines := flat_map (fun e => match e with Data l _ => [l] | _ => [] end) es in
+  let l_ok := list_eqb N.eqb impl_log (repeat read_timeout (arms_of tree_loop lines)) in
   let done := s_done (fst (srun false SCmd es)) in
   ((if r_ok then 1 else 0) + (if l_ok then 2 else 0) + (if done then 4 else 0))%N.
 
